@@ -37,6 +37,11 @@ type Machine[I any] struct {
 	// does, and the raw-state key cannot see such a residue. The quick tier does this for histories of
 	// up to three operations, the thorough tier for all of them.
 	Observe func(in I)
+	// Sequential: run one transition at a time. Needed where the oracle watches state that lives
+	// outside the instance (a bystander instance, package-level state): with transitions running side
+	// by side, a leak between instances would be blamed on the wrong history, or be undone by a
+	// neighbour before it is seen.
+	Sequential bool
 	// MaxDepth, when positive, bounds the history length: states at that depth are checked but not
 	// expanded, and the search then counts as complete for "all histories up to MaxDepth".
 	MaxDepth int
@@ -149,7 +154,15 @@ func BFS[I any](c *Ctx, m *Machine[I]) bfsStats {
 			trans int
 		}
 		results := make([]res, len(frontier))
-		parallelFor(len(frontier), func(i int) {
+		forEach := parallelFor
+		if m.Sequential {
+			forEach = func(n int, f func(i int)) {
+				for i := 0; i < n; i++ {
+					f(i)
+				}
+			}
+		}
+		forEach(len(frontier), func(i int) {
 			if c.TimeUp() {
 				return
 			}
